@@ -726,7 +726,9 @@ class BlockDownloadStream(io.RawIOBase):
         if self._done:
             raise RuntimeError("All expected data has already been transmitted")
         # Can send up to 7 bytes at a time
-        data = b[0:7]
+        # Take a copy, the block is kept for retransmission and b may be a
+        # view of a buffer that the caller reuses
+        data = bytes(b[0:7])
         if self.size is not None and self.pos + len(data) >= self.size:
             # This is the last data to be transmitted based on expected size
             self.send(data, end=True)
